@@ -44,7 +44,9 @@ Section NsTools.
         end
     end.
 
-  Definition missing_namespaces (z : zipper) : list nsid := missing_edges (traverse z) (fs_new []) [].
+  (* the serialiser starts with the base prefixes (xml) known *)
+  Definition missing_namespaces (z : zipper) : list nsid :=
+    missing_edges (traverse z) (fs_new [(ns_xml_prefix nm, ns_xml_ns nm)]) [].
 
   (* the prefixes a generated one must avoid: bound in the scope of the node, or declared anywhere below it *)
   Definition used_prefixes (z : zipper) : list prefixid :=
